@@ -176,24 +176,47 @@ def run(ctx):
         init = c.methods.get("__init__")
         close = c.methods.get("close")
         has_reopen = m.lookup_method(cq, "reopen") is not None
-        reg = init is not None and any(
-            src(n) == "self._wr = weakref.ref(self, _remove_from_reopenable)"
-            for n in walk_shallow(init.node) if isinstance(n, ast.Assign)) \
-            and any(src(n) == "_reopenable_handlers.append(self._wr)"
-                    for n in walk_shallow(init.node)
-                    if isinstance(n, ast.Call))
-        unreg = close is not None and any(
-            src(n) == "_remove_from_reopenable(self._wr)"
-            for n in walk_shallow(close.node) if isinstance(n, ast.Call))
-        # the removal must be on every normal path of close()
-        if unreg:
-            from zcstatic import cfg as cfgmod
-            g = cfgmod.CFG(close.node)
-            okp, _ = g.must_pass(
-                [g.entry], lambda n: n.kind == "stmt" and n.ast is not None
-                and "_remove_from_reopenable(self._wr)" in src(n.ast),
-                [g.exit])
-            unreg = okp
+        # decided on the interpreted paths (helpers the rules do not know
+        # are seen through): every normal path of the constructor appends
+        # weakref.ref(self, <the remover>) to the registry and keeps it in an
+        # attribute; every normal path of close() hands that attribute to the
+        # remover
+        def on_all_normal_paths(fn, pred):
+            if fn is None:
+                return False
+            ps = [p for p in A.Interp(fn, P, try_raises=False).paths()
+                  if p.outcome[0] != "raise"]
+            return bool(ps) and all(any(pred(e) for e in p.effects)
+                                    for p in ps)
+        kept = set()
+
+        def is_register(e):
+            if e[0] != "call":
+                return False
+            t = A.fmt(e[1])
+            return "_reopenable_handlers.append(weakref.ref(self, " in t \
+                and "_remove_from_reopenable" in t
+
+        def is_keep(e):
+            if e[0] == "store" and e[1][0] == "attr" \
+                    and e[1][1] == ("self",) and A.fmt(e[2]).startswith(
+                        "weakref.ref(self, "):
+                kept.add(e[1][2])
+                return True
+            return False
+        reg = on_all_normal_paths(init, is_register) \
+            and on_all_normal_paths(init, is_keep)
+
+        def is_unregister(e):
+            if e[0] != "call":
+                return False
+            t = e[1]
+            return A.fmt(t[1]).endswith("_remove_from_reopenable") \
+                and len(t[2]) == 1 and (
+                    (t[2][0][0] == "attr" and t[2][0][1] == ("self",)
+                     and t[2][0][2] in kept)
+                    or A.fmt(t[2][0]).startswith("weakref.ref(self, "))
+        unreg = on_all_normal_paths(close, is_unregister)
         run.check(reg and unreg and has_reopen, "C20.R6", cq,
                   "register / unregister / reopen",
                   "constructor registers weakref.ref(self, remover); close() "
